@@ -271,7 +271,7 @@ func (g *tgen) newStruct(depth int) *TStruct {
 				f.Anno = fmt.Sprintf(" (go.tag = 'json:\"%s\"')", f.Alias)
 			}
 		}
-		if g.o.JSConv && f.Anno == "" && (f.T.Kind == tI64 || f.T.Kind == tI32 || f.T.Kind == tI16 || f.T.Kind == tDOUBLE) && g.t.Chance(1, 4, "field.jsconv") {
+		if g.o.JSConv && f.Anno == "" && (f.T.Kind == tI64 || f.T.Kind == tI32 || f.T.Kind == tI16) && g.t.Chance(1, 4, "field.jsconv") {
 			f.JSConv = true
 			f.Anno = ` (api.js_conv = "true")`
 		}
